@@ -871,8 +871,10 @@ static int match_char(struct ExecCtx *ctx, const struct Op *op, const char *str,
 	int c, i, maxcnt = SIMPLE_MAXCNT(op);
 
 	for (i = 0; (i < maxcnt) && str[i]; i++) {
-		c = icase ? tolower((unsigned char)str[i]) : str[i];
-		if (c != op->lit)
+		c = (unsigned char)str[i];
+		if (icase)
+			c = tolower(c);
+		if (c != (unsigned char)op->lit)
 			break;
 	}
 	return scan_next(ctx, op, str + i, gm, i, 1);
